@@ -10,10 +10,10 @@ the reference rejects  =>  pvl raises LexerError/ParseError.  The default
 loader's only extra tolerance is the missing value (reference extended by
 exactly that rule).
 """
-from ..core import B, zand
+from ..core import B, zand, znot, SymStr, ALPHABETS
 from .common import Harness, Outcome, dialect, run_property, veq
 from . import stream as st
-from .c06 import load, FUNCS
+from .c06 import load, FUNCS, ALPHA
 from .. import framework
 
 LOADERS = ("PVL", "ODL", "PDS3", "ISIS", "Omni")
@@ -120,6 +120,73 @@ class Stream(Harness):
         return Outcome("module", ok, {"tokens": toks, "reference": repr(ref[1]), "module": snap(m)})
 
 
+# --------------------------------------------------------------------------- character level: unterminated constructs
+OPEN = {
+    # name: (text up to and including the opener, characters the tail must not contain, what is left open)
+    "dquote": ('x = 1\na = "', '"', "quoted string"),
+    "squote": ("x = 1\na = '", "'", "quoted string"),
+    "comment": ("x = 1 /*", "", "comment"),
+    "units": ("x = 1\na = 1 <", ">", "units expression"),
+    "seq": ("x = 1\na = (1, ", ")", "sequence"),
+    "set": ("x = 1\na = {1, ", "}", "set"),
+    "seqquote": ('a = (1, "', '"', "quoted string inside a sequence"),
+    "groupquote": ('GROUP = g\na = "', '"', "quoted string inside a group"),
+    "nestedseq": ("a = ((1, 2), (3 ", ")", "inner sequence"),
+    "unitsseq": ("a = (1 <", ">", "units expression inside a sequence"),
+}
+
+
+class Unterminated(Harness):
+    """a construct opened by concrete text and followed by EVERY tail of n characters that does not close it:
+    the load must raise LexerError/ParseError (returning any module means statements were dropped or altered)"""
+    prop = "C05"
+    functions = FUNCS
+    must_reach = ("LexerError", "ParseError")
+    timeout = 170
+
+    @property
+    def alphabet(self):
+        return ALPHA[self.dialect]
+
+    @property
+    def bounds(self):
+        pre, forbid, what = OPEN[self.open]
+        return ("loader %s, text %r + every tail of %d characters over alphabet '%s' without %s (unterminated %s)" % (
+            self.dialect, pre, self.n, ALPHA[self.dialect],
+            repr(forbid) if forbid else "the two-character closer '*/' (and not starting with '/')", what))
+
+    def inputs(self, ctx):
+        pre, forbid, what = OPEN[self.open]
+        rs = []
+        for a, b in ALPHABETS[ALPHA[self.dialect]]:
+            cuts = sorted(ord(c) for c in forbid if a <= ord(c) <= b)
+            lo = a
+            for c in cuts:
+                if lo <= c - 1:
+                    rs.append((lo, c - 1))
+                lo = c + 1
+            if lo <= b:
+                rs.append((lo, b))
+        t = ctx.fresh_str(self.n, "t", tuple(rs))
+        if self.open == "comment":
+            cs = t.cs
+            if cs:
+                ctx.assume(znot(B(SymStr((cs[0],)) == "/")))
+            for x, y in zip(cs, cs[1:]):
+                ctx.assume(znot(zand([B(SymStr((x,)) == "*"), B(SymStr((y,)) == "/")])))
+        return {"tail": t}
+
+    def prop_fn(self, L, inp):
+        text = OPEN[self.open][0] + inp["tail"]
+        try:
+            m = load(L, self.dialect, text=text)
+        except L.exceptions.LexerError:
+            return Outcome("LexerError", True, None)
+        except L.exceptions.ParseError:
+            return Outcome("ParseError", True, None)
+        return Outcome("module", False, {"text": text, "module": snap(m)})
+
+
 def obligations(tier):
     quick = tier == "quick"
     obs = []
@@ -127,6 +194,9 @@ def obligations(tier):
         obs.append(Stream(dialect=d, k=5 if quick else 7, prefix="", shard_bits=6 if quick else 10))
         for pre in ("ingroup", "afterstmt", "nested"):
             obs.append(Stream(dialect=d, k=4 if quick else 6, prefix=pre, shard_bits=5 if quick else 9))
+        for o in OPEN:
+            for n in range(0, (2 if quick else 4) + 1):
+                obs.append(Unterminated(dialect=d, open=o, n=n, shard_bits=0 if n < 3 else 4))
     return obs
 
 
